@@ -33,6 +33,10 @@ func c17Range(c *Ctx) {
 		if path != "roundRobinPartitioner.partition" {
 			return ivAny, false
 		}
+		// inductive check: assuming the cursor is ≥ 0 on entry, every value stored into it is 0, or x+1 for an x
+		// that is known to lie in [0, n−1] at that point (below the partition count, or just reset).  "+1 of
+		// something unbounded" would wrap to negative values after 2^31 increments.
+		assumed := func(string) (ival, bool) { return ival{lo: loZero, hi: hiPosInf}, true }
 		ok, n := true, 0
 		for _, f := range p.Fns {
 			Info(f).Each(func(it Item) {
@@ -40,31 +44,37 @@ func c17Range(c *Ctx) {
 					return
 				}
 				n++
-				v := it.In.(*ssa.Store).Val
-				if !(ConstInt(0)(v) || BinOpOf(token.ADD, FieldLoad(path), ConstInt(1))(v)) {
+				st := it.In.(*ssa.Store)
+				v := st.Val
+				if ConstInt(0)(v) {
+					return
+				}
+				bo, isBo := v.(*ssa.BinOp)
+				if !isBo || bo.Op != token.ADD || len(f.Params) != 3 {
+					ok = false
+					return
+				}
+				x := bo.X
+				if !ConstInt(1)(bo.Y) {
+					if !ConstInt(1)(bo.X) {
+						ok = false
+						return
+					}
+					x = bo.Y
+				}
+				eng := &intervalEngine{p: p, fn: f, n: f.Params[2], fieldInv: assumed}
+				var facts []fact
+				if b := st.Block(); len(b.Preds) == 1 {
+					facts = eng.pathFacts(b.Preds[0], b)
+				}
+				iv := eng.eval(x, facts)
+				if iv.lo < loZero || iv.hi > hiN1 {
 					ok = false
 				}
 			})
 		}
 		if !ok || n == 0 {
 			return ivAny, false
-		}
-		// the cursor is an int32: "0 or cursor+1" keeps it non-negative only if it cannot grow without bound.  Every
-		// increment must therefore act on a value that is bounded at that point (below the partition count, or just
-		// reset) — assuming the invariant, evaluate the operand of each increment
-		assumed := func(string) (ival, bool) { return ival{lo: loZero, hi: hiPosInf}, true }
-		for _, f := range p.Fns {
-			if len(f.Params) != 3 {
-				continue
-			}
-			for _, s := range Info(f).Find(StoreTo(BinOpOf(token.ADD, FieldLoad(path), ConstInt(1)), path)) {
-				bo := s.In.(*ssa.Store).Val.(*ssa.BinOp)
-				eng := &intervalEngine{p: p, fn: f, n: f.Params[2], fieldInv: assumed}
-				iv := eng.eval(bo.X, nil)
-				if iv.hi == hiPosInf {
-					return ivAny, false // unbounded: wraps to negative values after 2^31 increments
-				}
-			}
 		}
 		return ival{lo: loZero, hi: hiPosInf}, true
 	}
